@@ -1525,7 +1525,7 @@ def _collect_if_structure(lines: List[str], start: int) -> Tuple[List[str], int]
     snippet.extend(block)
     while i < len(lines):
         raw = lines[i]
-        text = raw.strip()
+        text = _strip_inline_comment(raw).strip()
         if not text or text.startswith("#"):
             snippet.append(raw)
             i += 1
@@ -1548,7 +1548,7 @@ def _collect_try_structure(lines: List[str], start: int) -> Tuple[List[str], int
     snippet.extend(block)
     while i < len(lines):
         raw = lines[i]
-        text = raw.strip()
+        text = _strip_inline_comment(raw).strip()
         if not text or text.startswith("#"):
             snippet.append(raw)
             i += 1
@@ -4294,7 +4294,7 @@ def _parse_source(src: str) -> Program:
     i = 0
     while i < len(lines):
         raw = lines[i]
-        text = raw.strip()
+        text = _strip_inline_comment(raw).strip()
 
         if not text or text.startswith('#'):
             i += 1; continue
